@@ -395,8 +395,36 @@ func (c *caseT) reimport() {
 	}
 	cctx, _ := c.ctx.CacheContext()
 	saved := c.ctx
+	riffle := c.r.Chance(1, 2)
 	e := fx.Try(func() error {
 		g := c.app.TSSKeeper.ExportGenesis(cctx)
+		if riffle {
+			// a genesis file need not list the nonces grouped by member: the same queues, listed round-robin across the
+			// members (each member's own order kept), must import to the same state
+			byAddr := map[string][]tsstypes.DEGenesis{}
+			var order []string
+			for _, d := range g.DEs {
+				if _, ok := byAddr[d.Address]; !ok {
+					order = append(order, d.Address)
+				}
+				byAddr[d.Address] = append(byAddr[d.Address], d)
+			}
+			var mixed []tsstypes.DEGenesis
+			for len(mixed) < len(g.DEs) {
+				for _, a := range order {
+					if len(byAddr[a]) > 0 {
+						mixed = append(mixed, byAddr[a][0])
+						byAddr[a] = byAddr[a][1:]
+					}
+				}
+			}
+			// (a queue holding an injected malformed pair does not pass genesis validation: such an export is imported as it is)
+			g2 := *g
+			g2.DEs = mixed
+			if g2.Validate() == nil {
+				g.DEs = mixed
+			}
+		}
 		c.app.TSSKeeper.InitGenesis(cctx, *g)
 		return nil
 	})
